@@ -12,6 +12,8 @@ use callbag::{Message, Sink, Source};
 use never::Never;
 use std::panic::{catch_unwind, AssertUnwindSafe};
 use std::sync::atomic::{AtomicBool, Ordering};
+#[allow(unused_imports)]
+use callbag::merge;
 use std::sync::{Arc, Mutex};
 
 #[derive(Clone, Copy, Debug, PartialEq, Eq)]
@@ -790,4 +792,113 @@ pub fn replay(_o: &Opts, parts: &[&str]) -> i32 {
         },
         None => 0,
     }
+}
+
+// ---------------------------------------------------------------------------------------------
+// Real-executor race (thorough tier): two `interval` sources on async-std's multi-threaded
+// executor feeding merge! / combine! / take, the situation the statements of C18 and C19 name.
+// Wall-clock tolerant: only the exactly-once clauses are judged.
+// ---------------------------------------------------------------------------------------------
+
+pub fn real_executor_race(o: &Opts, rep: &mut Report) {
+    use async_executors::AsyncStd;
+    use async_nursery::Nursery;
+    use std::time::{Duration, Instant};
+    type Log = Arc<Mutex<Vec<(char, i64, i32)>>>; // (kind, value, data deliveries in progress)
+    fn sink(log: &Log, inflight: &Arc<std::sync::atomic::AtomicI32>) -> Arc<Sink<i64>> {
+        let log = Arc::clone(log);
+        let inflight = Arc::clone(inflight);
+        Arc::new(
+            (move |m: Message<i64, Never>| match m {
+                Message::Handshake(_) => log.lock().unwrap().push(('H', 0, 0)),
+                Message::Data(d) => {
+                    let n = inflight.fetch_add(1, Ordering::SeqCst);
+                    log.lock().unwrap().push(('D', d, n));
+                    std::thread::yield_now();
+                    inflight.fetch_sub(1, Ordering::SeqCst);
+                },
+                Message::Terminate => {
+                    let n = inflight.load(Ordering::SeqCst);
+                    log.lock().unwrap().push(('T', 0, n));
+                },
+                Message::Error(_) => log.lock().unwrap().push(('E', 0, 0)),
+                Message::Pull => {},
+            })
+            .into(),
+        )
+    }
+    let rounds = 60;
+    let (nursery, nursery_out) = Nursery::new(AsyncStd);
+    let mut problems: Vec<String> = vec![];
+    let mut total_data = 0usize;
+    for r in 0..rounds {
+        let k = 3 + (r % 4) as usize;
+        let n = 2 + (r % 3) as usize;
+        let mk = |i: i64| -> Src<i64> {
+            let iv: Src<usize> = Arc::new(callbag::interval(Duration::from_millis(1), nursery.clone()));
+            Arc::new(callbag::map(move |x: usize| x as i64 + 1000 * i)(iv))
+        };
+        let log: Log = Arc::new(Mutex::new(vec![]));
+        let inflight = Arc::new(std::sync::atomic::AtomicI32::new(0));
+        let out: Src<i64> = if o.prop == "C18" {
+            // each member delivers k data and completes, from executor threads
+            let a: Src<i64> = Arc::new(callbag::take(k)(mk(1)));
+            let b: Src<i64> = Arc::new(callbag::take(k)(mk(2)));
+            Arc::new(callbag::merge!(a, b))
+        } else {
+            let m: Src<i64> = Arc::new(callbag::merge!(mk(1), mk(2)));
+            Arc::new(callbag::take(n)(m))
+        };
+        out(Message::Handshake(sink(&log, &inflight)));
+        let t0 = Instant::now();
+        loop {
+            if log.lock().unwrap().iter().any(|e| e.0 == 'T' || e.0 == 'E') || t0.elapsed() > Duration::from_millis(800) {
+                break;
+            }
+            std::thread::sleep(Duration::from_millis(1));
+        }
+        std::thread::sleep(Duration::from_millis(4));
+        let l = log.lock().unwrap().clone();
+        let greets = l.iter().filter(|e| e.0 == 'H').count();
+        let data: Vec<i64> = l.iter().filter(|e| e.0 == 'D').map(|e| e.1).collect();
+        let terms: Vec<&(char, i64, i32)> = l.iter().filter(|e| e.0 == 'T' || e.0 == 'E').collect();
+        total_data += data.len();
+        if greets != 1 {
+            problems.push(format!("round {}: sink greeted {} times", r, greets));
+        }
+        if terms.len() != 1 {
+            problems.push(format!("round {}: sink received {} terminals ({:?})", r, terms.len(), l));
+        }
+        if o.prop == "C18" {
+            for m in 1..=2i64 {
+                let seq: Vec<i64> = data.iter().copied().filter(|v| v / 1000 == m).map(|v| v % 1000).collect();
+                let want: Vec<i64> = (0..k as i64).collect();
+                if seq != want {
+                    problems.push(format!("round {}: member {} data arrived as {:?}, expected {:?}", r, m, seq, want));
+                }
+            }
+            if let Some(t) = terms.first() {
+                if t.0 == 'T' && t.2 != 0 {
+                    problems.push(format!("round {}: Terminate entered while {} Data deliveries were in progress", r, t.2));
+                }
+            }
+        } else if data.len() != n {
+            problems.push(format!("round {}: take({}) delivered {} data", r, n, data.len()));
+        }
+    }
+    drop(nursery);
+    let joined = async_std::task::block_on(async_std::future::timeout(Duration::from_secs(5), nursery_out)).is_ok();
+    rep.evaluations += rounds as u64;
+    rep.bump("real-executor rounds (two intervals on async-std)", rounds as u64);
+    rep.bump("real-executor data deliveries observed", total_data as u64);
+    let summary = J::obj()
+        .set("executor", J::s("async-std multi-threaded executor, two interval(1 ms) members"))
+        .set("rounds", J::i(rounds as i64))
+        .set("data_deliveries", J::i(total_data as i64))
+        .set("all_ticking_tasks_ended_within_5s", J::Bool(joined))
+        .set("problems", J::arr(problems.iter().take(5).map(|p| J::s(p))));
+    if !problems.is_empty() {
+        rep.add_violation(&o.prop, "real-executor/exactly-once-clause-violated", &problems[0], "E4r:real-executor", summary.clone());
+    }
+    rep.extra.push(("real_executor_race".into(), summary));
 }
